@@ -16,6 +16,10 @@ abbrev Lines := List String
 structure Codec where
   enc : Val → R Lines
   dec : Lines → R Val
+  /-- yaml.v3's `Decoder` loop over one part of a stream: EVERY document the part holds (a part can
+      hold several: `--- # comment`, `--- {a: 1}` and `--- ` are document starts that are not
+      separator lines).  By default a part holds the one document `dec` sees. -/
+  decMany : Lines → R (List Val) := fun ls => do pure [← dec ls]
 
 def sepYaml (l : String) : Bool := l == "---"
 def sepToml (l : String) : Bool := l == "---" || l == "+++"
@@ -44,10 +48,18 @@ def yamlMarshalStream (c : Codec) (vs : List Val) : R Lines :=
         pure ((if encFirst then [] else ["---"]) ++ body ++ tail)
   go true true vs
 
-/-- yaml.go:yamlUnmarshalStream — an empty part is an empty (null) document -/
-def yamlUnmarshalStream (c : Codec) (text : Lines) : R (List Val) :=
-  (splitAt sepYaml text).mapM fun part =>
-    if part.all (fun l => l.trimAscii.toString == "") then pure Val.null else c.dec part
+/-- yaml.go:yamlUnmarshalStream, one part: all its documents; a part without any document (blank,
+    or only comments) is one empty (null) document -/
+def yamlPartDocs (c : Codec) (part : Lines) : R (List Val) :=
+  if part.all (fun l => l.trimAscii.toString == "") then pure [Val.null]
+  else do
+    let ds ← c.decMany part
+    pure (if ds.isEmpty then [Val.null] else ds)
+
+/-- yaml.go:yamlUnmarshalStream — split at separator lines, decode every document of every part -/
+def yamlUnmarshalStream (c : Codec) (text : Lines) : R (List Val) := do
+  let parts ← (splitAt sepYaml text).mapM (yamlPartDocs c)
+  pure parts.flatten
 
 /-- toml.go:tomlMarshalStream — `---` between documents; an empty document is written as nothing -/
 def tomlMarshalStream (c : Codec) (vs : List Val) : R Lines :=
